@@ -47,9 +47,15 @@ type recCase struct {
 	// PingFirst: the client's keepalive ping (not application data) is the
 	// first DATA packet after the handshake.
 	PingFirst bool `json:"ping_first,omitempty"`
-	C2S       int  `json:"c2s"` // messages client -> server (>= 1)
-	S2C       int  `json:"s2c"` // messages server -> client
-	MsgLen    int  `json:"msg_len"`
+	// StaleC2S / StaleS2C: packets of an earlier connection (never a SYN)
+	// still queued towards the server / the client when the two start. Both
+	// handshakes ignore anything but a SYN while they wait for one, and these
+	// are in front of everything else, so they change nothing.
+	StaleC2S []stalePkt `json:"stale_c2s,omitempty"`
+	StaleS2C []stalePkt `json:"stale_s2c,omitempty"`
+	C2S      int        `json:"c2s"` // messages client -> server (>= 1)
+	S2C      int        `json:"s2c"` // messages server -> client
+	MsgLen   int        `json:"msg_len"`
 }
 
 func genC10Recovery(t *rapid.T) *recCase {
@@ -89,6 +95,16 @@ func genC10Recovery(t *rapid.T) *recCase {
 		c.Client.PongMs = 6*rs + 4*c.LatMs + 1000
 		c.FirstDataMs += rapid.SampledFrom([]int{1, 500, 3000}).Draw(t, "data_after_ping")
 	}
+	if rapid.IntRange(0, 2).Draw(t, "stale") == 0 {
+		sg := rapid.Custom(func(t *rapid.T) stalePkt {
+			return stalePkt{
+				Type: rapid.SampledFrom([]string{"SYNACK", "DATA", "ACK", "NACK", "FIN"}).Draw(t, "type"),
+				Val:  rapid.SampledFrom([]int{0, 1, c.N, 255}).Draw(t, "seq"),
+			}
+		})
+		c.StaleC2S = rapid.SliceOfN(sg, 0, 4).Draw(t, "stale_c2s")
+		c.StaleS2C = rapid.SliceOfN(sg, 0, 4).Draw(t, "stale_s2c")
+	}
 	c.C2S = rapid.SampledFrom([]int{1, 1, 2, c.N, c.N + 2}).Draw(t, "c2s")
 	if c.C2S > 40 {
 		c.C2S = 40
@@ -124,6 +140,12 @@ func runC10Recovery(t *testing.T, c *recCase) (res recResult) {
 		}
 		c2s := vnet.NewLink("c2s", ms(c.LatMs), fc2s, tr)
 		s2c := vnet.NewLink("s2c", ms(c.LatMs), fs2c, tr)
+		for _, sp := range c.StaleC2S {
+			c2s.Inject(sp.bytes())
+		}
+		for _, sp := range c.StaleS2C {
+			s2c.Inject(sp.bytes())
+		}
 		c2s.Arm(time.Time{})
 		s2c.Arm(time.Time{})
 
@@ -290,6 +312,9 @@ func runC10Recovery(t *testing.T, c *recCase) (res recResult) {
 	for _, r := range c.Rounds {
 		res.labels = append(res.labels, "lost_"+r)
 	}
+	if len(c.StaleC2S)+len(c.StaleS2C) > 0 {
+		res.labels = append(res.labels, "stale_non_syn_prefix")
+	}
 	if c.SynackLost {
 		res.labels = append(res.labels, "lost_synack")
 		if c.PingFirst {
@@ -321,7 +346,7 @@ func TestC10Recovery(t *testing.T) {
 		c := genC10Recovery(rt)
 		rec.Current("recovery", c)
 		r := runC10Recovery(t, c)
-		nontrivial := len(c.Rounds) > 0 || c.SynackLost
+		nontrivial := len(c.Rounds) > 0 || c.SynackLost || len(c.StaleC2S)+len(c.StaleS2C) > 0
 		rec.Case(nontrivial, fmt.Sprintf("%+v", *c), r.labels...)
 		if nontrivial && rec.WantSample() {
 			rec.Sample(c)
